@@ -430,14 +430,38 @@ impl<T> Shared<T> {
     id
   }
 
-  pub(crate) fn unregister_async_send(&self, id: u64) {
+  /// Returns `false` if the waiter was no longer queued, i.e. a notifier had
+  /// already dequeued (woken) it.
+  pub(crate) fn unregister_async_send(&self, id: u64) -> bool {
     let mut g = self.async_send_waiters.lock();
     let prev = g.queue.len();
     g.queue.retain(|(sid, _, _)| *sid != id);
-    if g.queue.len() != prev {
+    let removed = g.queue.len() != prev;
+    if removed {
       self
         .async_send_waiter_count
         .store(g.queue.len(), Ordering::Release);
+    }
+    removed
+  }
+
+  /// Leave the async send-waiter set WITHOUT having sent (future dropped, or the
+  /// send failed). The async wake policy is a metered drip - exactly one waiter
+  /// per progress publication - so a waiter that was already dequeued and woken
+  /// but gives up its turn must hand the wake to the next queued sender;
+  /// otherwise that sender sleeps next to free capacity until the consumer
+  /// happens to publish progress again.
+  pub(crate) fn abandon_async_send(&self, id: u64) {
+    if self.unregister_async_send(id) {
+      return;
+    }
+    let mut g = self.async_send_waiters.lock();
+    if let Some((_id, waker, _)) = g.queue.pop_front() {
+      self
+        .async_send_waiter_count
+        .store(g.queue.len(), Ordering::Release);
+      drop(g);
+      waker.wake();
     }
   }
 
